@@ -313,6 +313,15 @@ def mk_app(f, args=(), kw=()):
             if w is not None and not isinstance(b, TupleV):
                 return App("hexw", (b, w))              # "%0{2W}x" % v: zero-padded lower-case hex, 2W digits
             return App("fmt", args)                     # other printf-style formatting stays opaque
+        # arithmetic units
+        if f in ("Add", "Sub") and isinstance(b, Const) and b.v == 0 and not isinstance(b.v, bool) and ty_of(a) == "int":
+            return a
+        if f == "Add" and isinstance(a, Const) and a.v == 0 and not isinstance(a.v, bool) and ty_of(b) == "int":
+            return b
+        if f == "Mult" and isinstance(b, Const) and b.v == 1 and not isinstance(b.v, bool) and ty_of(a) == "int":
+            return a
+        if f == "Mult" and isinstance(a, Const) and a.v == 1 and not isinstance(a.v, bool) and ty_of(b) == "int":
+            return b
         # bytes/list concatenation -> cat / list
         if f == "Add":
             ta, tb = ty_of(a), ty_of(b)
